@@ -170,7 +170,8 @@ fn site(cx: &mut CaseCtx, s: u64) {
                     Err(format!("encoded as {}", hex(&e)))
                 }
             });
-            for n in [(1usize << 28) - 4, (1 << 28) - 1, 1 << 28, (1 << 28) + 1, 1 << 30, far(&mut r, 1 << 28, 1 << 40)] {
+            // beyond 2^32 as well: values whose low 32 bits alone would look small
+            for n in [(1usize << 28) - 4, (1 << 28) - 1, 1 << 28, (1 << 28) + 1, 1 << 30, 1 << 32, (1 << 32) + 5, (7 << 32) | 0x1234, (1 << 36) + (1 << 27), usize::MAX - 8, far(&mut r, 1 << 28, 1 << 40), (far(&mut r, 1, 1 << 20) << 32) | far(&mut r, 0, 1 << 27)] {
                 refuse(cx, name, format!("content length {}", n), || hook(n, true));
             }
         }
@@ -188,7 +189,7 @@ fn site(cx: &mut CaseCtx, s: u64) {
             if let Err(e) = term_ok(cx, &t) {
                 cx.violation(format!("[{} build] {}: field widths 2^28-1: {}", cx.cfg.profile, name, e), J::Null);
             }
-            for n in [1usize << 28, (1 << 28) + 1, 1 << 31, far(&mut r, 1 << 28, 1 << 44)] {
+            for n in [1usize << 28, (1 << 28) + 1, 1 << 31, 1 << 32, (1 << 32) + 5, (7 << 32) | 0x1234, usize::MAX, far(&mut r, 1 << 28, 1 << 44), (far(&mut r, 1, 1 << 20) << 32) | far(&mut r, 0, 1 << 27)] {
                 refuse(cx, name, format!("exclusive length {}", n), || hook(n, false));
                 for named in [true, false] {
                     refuse(cx, name, format!("{} field entry of width {}", if named { "named" } else { "reserved" }, n), || {
